@@ -39,6 +39,32 @@ CHECKS = [
               'key lists are available. Complete enumeration of a finite space.',
          note='two entries (gauss_log 15 and 31) are certified only to 1e-18 and recorded as known findings with Lean '
               'negation witnesses; translator and Mathlib analysis library trusted; dot-product rounding not modelled'),
+    dict(id='C10', design_ref='DESIGN.md section 6 / C10',
+         technique='Lean 4 theorems on the geometric neighbour relation of every mesh satisfying the invariant + neighbour-list correspondence',
+         text='Proof, for every mesh satisfying the invariant (hence every reachable one): the model neighbour list is '
+              'exactly the set of leaves sharing a positive-length piece of the side, the relation is symmetric, true '
+              'boundary sides have no neighbours, every other side (incl. the seam) has at least one, and with the '
+              'dyadic level structure (proved to be preserved by every operation) at most two. That the half-edge '
+              'lookup Edge.neighbour_elements() returns this list, in this order, with these flags is checked after '
+              'every operation of exhaustive bounded and random histories.',
+         note='pointer-level lookup tied by correspondence only (no H-layer refinement proof)'),
+    dict(id='C06', design_ref='DESIGN.md section 6 / C06',
+         technique='Lean 4 theorems (shortest prefix, phases never fail, marked implies refined) + exact correspondence + declarative-closure oracle',
+         text='Proof in exact arithmetic: the marking loop returns the shortest non-empty prefix reaching theta^2 total '
+              '(for every ordering handed in, so NumPy tie order is universally quantified); both refinement phases '
+              'never hit an assertion on any mesh satisfying the invariant (each original leaf is bisected at most once '
+              'per phase), every marked element ends up one level deeper in each marked direction, invariants are '
+              'preserved. Tied to dorfler_refine_* by exact runs (indicators with exact binary sums) incl. exhaustive '
+              'small cases; the resulting leaf set is compared with an independent declarative double closure.',
+         note='binary64 summation order (np.sum pairwise vs sequential cumsum) is outside the model; searched by a float stream'),
+    dict(id='C19', design_ref='DESIGN.md section 6 / C19',
+         technique='Lean 4 theorems (window on return, no assertion after the fix, termination by a potential function, negation witness for the unrepaired code) + correspondence',
+         text='Proof: whenever grading returns, it only refined, the invariant holds and every leaf is in the window '
+              '(also stated with real powers); the repaired sweep never fails on a mesh satisfying the invariant; for '
+              'meshes with uniform root sizes (unit/pi square, circle, interval, split L-shape) grading terminates for '
+              'every p,q >= 1 (potential function). The abort of the original code is reproduced as a Lean negation '
+              'witness and on the real code, and repaired by a fix: commit.',
+         note='termination for non-uniform root sizes (e.g. unsplit L-shape 1,2,2,1,1,1) is explored, not proved'),
 ]
 for p in _PENDING:
     if p not in [c['id'] for c in CHECKS]:
